@@ -348,6 +348,11 @@ func (l *lexer) acceptRun(ttype int, valid string) bool {
 }
 
 func (l *lexer) acceptString() bool {
+	if l.isEof() {
+		// nothing left to read: an empty string token here made the extension
+		// argument loop of lexBegin spin forever on a truncated text
+		return false
+	}
 	begin := l.next()
 	isDblQuote := begin == char_doublequote
 	isSglQuote := begin == char_singlequote
